@@ -281,6 +281,12 @@ func evalInt(s string) (int, bool) {
 			pos++
 			return v, true
 		}
+		switch t {
+		case "TRUE":
+			return 1, true
+		case "FALSE":
+			return 0, true
+		}
 		n, err := strconv.ParseInt(t, 0, 64)
 		return int(n), err == nil
 	}
